@@ -92,6 +92,10 @@ func runFree(sid int, seed int64, wt time.Duration) ([]line, outcome) {
 			if shut {
 				return
 			}
+			// a shutdown that precedes the creation of the monitor leaves nothing to observe
+			if _, ok := s.wait(0, is("select"), wt); !ok {
+				return
+			}
 			shut = true
 			s.rec(line{"e": "shutdown"})
 			s.cancel()
